@@ -270,6 +270,10 @@ func vxFSMkdirAll(path string) {
 	panic("vxFSMkdirAll: environment-model function, not available in native replay")
 }
 
+func vxFSDelete(path string) {
+	panic("vxFSDelete: environment-model function, not available in native replay")
+}
+
 func vxFSPutData(path string, data string) {
 	panic("vxFSPutData: environment-model function, not available in native replay")
 }
